@@ -61,6 +61,8 @@ func (o op) String() string {
 		return "G"
 	case 'R':
 		return "R"
+	case 'F':
+		return "F"
 	case 'A':
 		return fmt.Sprintf("A%d", o.N)
 	case 'S':
@@ -106,6 +108,8 @@ func parseOps(s string) []op {
 			out = append(out, op{K: 'G'})
 		case 'R':
 			out = append(out, op{K: 'R'})
+		case 'F':
+			out = append(out, op{K: 'F'})
 		case 'A', 'S':
 			out = append(out, op{K: f[0], N: ints()[0]})
 		default:
@@ -175,6 +179,7 @@ func strayPath(id int) string {
 type truth struct {
 	g      *dag.Graph
 	stored map[int]bool
+	known  map[int]bool // nodes of the store's graph (= stored unless the store was reopened: a reopened store knows what index.json reaches)
 	tags   map[int]int  // tag -> node
 	digidx map[int]bool // nodes whose digest is a reference of the store
 	strays map[int]bool
@@ -182,7 +187,7 @@ type truth struct {
 }
 
 func newTruth(g *dag.Graph) *truth {
-	return &truth{g: g, stored: map[int]bool{}, tags: map[int]int{}, digidx: map[int]bool{}, strays: map[int]bool{}, autogc: true}
+	return &truth{g: g, known: map[int]bool{}, stored: map[int]bool{}, tags: map[int]int{}, digidx: map[int]bool{}, strays: map[int]bool{}, autogc: true}
 }
 
 func (t *truth) tagged(n int) bool {
@@ -194,11 +199,11 @@ func (t *truth) tagged(n int) bool {
 	return false
 }
 
-// stored predecessors of n
+// predecessors of n among the nodes the store knows
 func (t *truth) preds(n int) []int {
 	var out []int
 	for _, p := range t.g.Preds(n) {
-		if t.stored[p] {
+		if t.known[p] {
 			out = append(out, p)
 		}
 	}
@@ -235,7 +240,7 @@ func (t *truth) live() (live map[int]bool, keptRef map[int]bool) {
 				if s < 0 {
 					break
 				}
-				if live[s] {
+				if live[s] && t.g.Nodes[s].IsManifest() {
 					keptRef[r] = true
 					t.closure(r, live)
 					changed = true
@@ -258,7 +263,7 @@ func (t *truth) gone(x int) map[int]bool {
 		changed = false
 		for _, n := range t.g.Nodes {
 			i := n.ID
-			if gone[i] || !t.stored[i] || t.tagged(i) {
+			if gone[i] || !t.known[i] || t.tagged(i) {
 				continue
 			}
 			ps := t.preds(i)
@@ -267,7 +272,7 @@ func (t *truth) gone(x int) map[int]bool {
 				// (links of its own referrers, i.e. subject links, do not hold it)
 				held := false
 				for _, p := range ps {
-					if !gone[p] && t.g.Nodes[p].Subject != i {
+					if !gone[p] && lists(t.g, p, i) {
 						held = true
 					}
 				}
@@ -292,6 +297,21 @@ func (t *truth) gone(x int) map[int]bool {
 	return gone
 }
 
+// lists: p links to y other than through its subject field (entries of manifests / layers /
+// config / blobs; a node that is both the subject and an entry is listed)
+func lists(g *dag.Graph, p, y int) bool {
+	n := 0
+	for _, s := range g.Nodes[p].Succ {
+		if s == y {
+			n++
+		}
+	}
+	if g.Nodes[p].Subject == y {
+		n--
+	}
+	return n > 0
+}
+
 // ---------- observation of the real store ----------
 
 type obs struct {
@@ -310,9 +330,9 @@ func (o *obs) String() string {
 			i = append(i, fmt.Sprintf("t%d>%d", t, n))
 		}
 	}
-	// digest-only references are deliberately not part of the compared observable: which
-	// live descriptors stay resolvable by digest after GC does not influence any later
-	// Delete/GC outcome (a live node that is also a candidate adds nothing to the graph)
+	for _, n := range o.digs {
+		i = append(i, fmt.Sprintf("d%d", n))
+	}
 	var p []string
 	var keys []int
 	for k := range o.preds {
@@ -356,11 +376,13 @@ func (w *world) observe(ctx context.Context, strayIDs map[int]bool) *obs {
 		}
 	}
 	sort.Ints(o.strays)
-	ents, _ := os.ReadDir(filepath.Join(blobsDir, "sha256"))
-	for _, e := range ents {
-		d := digest.NewDigestFromEncoded(digest.SHA256, e.Name())
-		if id, ok := w.byDig[d]; ok {
-			o.blobs = append(o.blobs, id)
+	for _, alg := range []digest.Algorithm{digest.SHA256, digest.SHA384, digest.SHA512} {
+		ents, _ := os.ReadDir(filepath.Join(blobsDir, alg.String()))
+		for _, e := range ents {
+			d := digest.NewDigestFromEncoded(alg, e.Name())
+			if id, ok := w.byDig[d]; ok {
+				o.blobs = append(o.blobs, id)
+			}
 		}
 	}
 	sort.Ints(o.blobs)
@@ -453,6 +475,39 @@ func (w *world) guarded(f func(ctx context.Context) error) (err error, hung bool
 type replayCase struct {
 	Graph []dag.Encoded `json:"graph"`
 	Ops   string        `json:"ops"`
+	// digest algorithm of the nodes that are not sha256 (dag.Decode recomputes sha256)
+	Algs map[string]string `json:"algs,omitempty"`
+}
+
+func algsOf(g *dag.Graph) map[string]string {
+	m := map[string]string{}
+	for _, n := range g.Nodes {
+		if a := n.Desc.Digest.Algorithm(); a != digest.SHA256 {
+			m[strconv.Itoa(n.ID)] = a.String()
+		}
+	}
+	return m
+}
+
+func applyAlgs(g *dag.Graph, algs map[string]string) {
+	for k, a := range algs {
+		id, err := strconv.Atoi(k)
+		if err != nil || id < 0 || id >= len(g.Nodes) {
+			continue
+		}
+		g.Nodes[id].Desc.Digest = digest.Algorithm(a).FromBytes(g.Nodes[id].Bytes)
+	}
+}
+
+// altDigest re-addresses the node that was appended last under sha512 or sha384 (nothing
+// refers to it yet, so no other node's bytes change)
+func altDigest(r *common.Rand, g *dag.Graph) {
+	n := g.Nodes[len(g.Nodes)-1]
+	alg := digest.SHA512
+	if r.Chance(1, 3) {
+		alg = digest.SHA384
+	}
+	n.Desc.Digest = alg.FromBytes(n.Bytes)
 }
 
 func modelInput(g *dag.Graph, ops []op, seed uint64) string {
@@ -505,7 +560,7 @@ func runCase(g *dag.Graph, ops []op, seed uint64) { runCaseAttempt(g, ops, seed,
 
 func runCaseAttempt(g *dag.Graph, ops []op, seed uint64, attempt int) {
 	id := run.NewID()
-	rep := replayCase{Graph: g.Encode(), Ops: opsString(ops)}
+	rep := replayCase{Graph: g.Encode(), Ops: opsString(ops), Algs: algsOf(g)}
 	fail := func(sig, msg string) {
 		run.OracleFail(id, sig, msg+" graph="+strings.Join(g.Describe(), " ")+" ops="+rep.Ops, rep)
 	}
@@ -539,6 +594,12 @@ func runCaseAttempt(g *dag.Graph, ops []op, seed uint64, attempt int) {
 				expStored[k] = true
 			}
 		}
+		expKnown := map[int]bool{}
+		for k, v := range tr.known {
+			if v {
+				expKnown[k] = true
+			}
+		}
 		expTags := map[int]int{}
 		for k, v := range tr.tags {
 			expTags[k] = v
@@ -564,6 +625,7 @@ func runCaseAttempt(g *dag.Graph, ops []op, seed uint64, attempt int) {
 				expRes = "exists"
 			} else {
 				expStored[o.N] = true
+				expKnown[o.N] = true
 				if n.IsManifest() {
 					expDig[o.N] = true
 				}
@@ -574,6 +636,9 @@ func runCaseAttempt(g *dag.Graph, ops []op, seed uint64, attempt int) {
 			if tr.stored[o.N] {
 				expTags[o.T] = o.N
 				expDig[o.N] = true
+				if g.Nodes[o.N].IsManifest() {
+					expKnown[o.N] = true // Store.Tag indexes a manifest before naming it in index.json
+				}
 			} else {
 				expRes = "notfound"
 			}
@@ -611,6 +676,35 @@ func runCaseAttempt(g *dag.Graph, ops []op, seed uint64, attempt int) {
 			}
 			tr.autogc = true
 			kind = "reopen"
+			// the reopened store knows what index.json reaches through stored content
+			expKnown = map[int]bool{}
+			for _, n := range tr.tags {
+				tr.closure(n, expKnown)
+			}
+			for n := range tr.digidx {
+				tr.closure(n, expKnown)
+			}
+		case 'F':
+			// the layout as other tools write it: index.json names only the tagged descriptors;
+			// then a new Store on the directory
+			if ferr := stripIndex(root); ferr != nil {
+				panic(ferr)
+			}
+			ns, nerr := oci.New(root)
+			if nerr != nil {
+				err = nerr
+			} else {
+				store = ns
+				w.store = ns
+			}
+			tr.autogc = true
+			kind = "foreign-index"
+			expDig = map[int]bool{}
+			expKnown = map[int]bool{}
+			for _, n := range tr.tags {
+				expDig[n] = true
+				tr.closure(n, expKnown)
+			}
 		case 'D':
 			err, hung = w.guarded(func(c context.Context) error { return store.Delete(c, g.Nodes[o.N].Desc) })
 			kind = "delete"
@@ -625,9 +719,32 @@ func runCaseAttempt(g *dag.Graph, ops []op, seed uint64, attempt int) {
 						nontrivial = true
 					}
 				}
+				// a surviving manifest that lost its last predecessor stays listed by its digest
+				for _, n := range g.Nodes {
+					if !tr.known[n.ID] || gone[n.ID] || !n.IsManifest() {
+						continue
+					}
+					ps := tr.preds(n.ID)
+					all := len(ps) > 0
+					for _, p := range ps {
+						if !gone[p] {
+							all = false
+						}
+					}
+					if all {
+						expDig[n.ID] = true
+					}
+				}
 				for k := range gone {
 					delete(expStored, k)
+					delete(expKnown, k)
 					delete(expDig, k)
+				}
+				if len(tr.known) != len(tr.stored) {
+					// after a reopen at an arbitrary point the graph is smaller than the storage:
+					// Delete is judged against the graph (C09_delete_exact), blobs the store does
+					// not know are outside C09's quantifier (they wait for GC)
+					run.Count("unjudged:delete-with-blobs-unknown-to-the-graph")
 				}
 				for t, n := range tr.tags {
 					if n == o.N {
@@ -644,6 +761,10 @@ func runCaseAttempt(g *dag.Graph, ops []op, seed uint64, attempt int) {
 					delete(expStored, k)
 					nontrivial = true
 				}
+			}
+			expKnown = map[int]bool{}
+			for k := range expStored {
+				expKnown[k] = true
 			}
 			for k := range expDig {
 				if !tr.tagged(k) && !kept[k] && !(keepLiveDigests && live[k]) {
@@ -664,7 +785,13 @@ func runCaseAttempt(g *dag.Graph, ops []op, seed uint64, attempt int) {
 				run.Count("watchdog-stall")
 				if attempt < 2 {
 					runCaseAttempt(g, ops, seed, attempt+1)
+					return
 				}
+				// three runs of the same history exceeded the watchdog and none of the fresh
+				// replays did: not a machine stall any more, an intermittent (e.g. iteration-order
+				// dependent) hang; the case is reported, never dropped silently
+				hangs++
+				fail(kind+"-hang-intermittent", fmt.Sprintf("op %d (%s) exceeded the watchdog in 3 runs of the history, the fresh replays returned", oi, o))
 				return
 			}
 			hangs++
@@ -726,9 +853,20 @@ func runCaseAttempt(g *dag.Graph, ops []op, seed uint64, attempt int) {
 			fail(kind+"-strays", fmt.Sprintf("op %d (%s): stray files %v, expected %v", oi, o, ob.strays, wantStrays))
 			failed = true
 		}
-		// predecessor relation: exactly the stored nodes that list n
+		// digest-only references (which ones GC keeps is the probed parameter kl)
+		var wantDigs []int
+		for _, n := range g.Nodes {
+			if expDig[n.ID] && n.Desc.MediaType != "application/octet-stream" {
+				wantDigs = append(wantDigs, n.ID)
+			}
+		}
+		if joinInts(wantDigs) != joinInts(ob.digs) {
+			fail(kind+"-digest-index", fmt.Sprintf("op %d (%s): digest references %v, expected %v", oi, o, ob.digs, wantDigs))
+			failed = true
+		}
+		// predecessor relation: exactly the nodes of the store's graph that list n
 		if !failed {
-			tr.stored = expStored
+			tr.stored, tr.known = expStored, expKnown
 			for _, n := range g.Nodes {
 				want := tr.preds(n.ID)
 				if joinInts(want) != joinInts(ob.preds[n.ID]) {
@@ -749,7 +887,7 @@ func runCaseAttempt(g *dag.Graph, ops []op, seed uint64, attempt int) {
 				continue
 			}
 			for _, p := range g.Preds(y) {
-				if expStored[p] && g.Nodes[p].Subject != y {
+				if expKnown[p] && lists(g, p, y) {
 					fail("delete-removed-linked", fmt.Sprintf("op %d (%s): node %d was removed although surviving node %d lists it", oi, o, y, p))
 					failed = true
 				}
@@ -758,18 +896,14 @@ func runCaseAttempt(g *dag.Graph, ops []op, seed uint64, attempt int) {
 		if failed {
 			continue
 		}
-		tr.stored, tr.tags, tr.digidx, tr.strays = expStored, expTags, expDig, expStrays
+		tr.stored, tr.known, tr.tags, tr.digidx, tr.strays = expStored, expKnown, expTags, expDig, expStrays
 	}
 	in := modelInput(g, ops, seed)
 	run.Case(id, in, strings.Join(out, " "))
 	// the same history again on fresh stores: only Go's map iteration order differs between
 	// the runs, so the observable outcome must be identical
 	if !failed {
-		reps := repeats
-		if !run.Thorough() && run.Evaluations%2 == 0 {
-			reps = 1
-		}
-		for k := 1; k < reps; k++ {
+		for k := 1; k < repeats; k++ {
 			again, hung := execOnly(g, ops)
 			if hung {
 				// reproduce before reporting (see above)
@@ -796,6 +930,32 @@ func runCaseAttempt(g *dag.Graph, ops []op, seed uint64, attempt int) {
 	}
 }
 
+// stripIndex rewrites index.json so that it names only the entries that carry a reference
+// name (what a tool that lists just the tagged top-level manifests writes).
+func stripIndex(root string) error {
+	p := filepath.Join(root, "index.json")
+	data, err := os.ReadFile(p)
+	if err != nil {
+		return err
+	}
+	var ix ocispec.Index
+	if err := json.Unmarshal(data, &ix); err != nil {
+		return err
+	}
+	kept := []ocispec.Descriptor{}
+	for _, d := range ix.Manifests {
+		if d.Annotations[ocispec.AnnotationRefName] != "" {
+			kept = append(kept, d)
+		}
+	}
+	ix.Manifests = kept
+	out, err := json.Marshal(ix)
+	if err != nil {
+		return err
+	}
+	return os.WriteFile(p, out, 0o644)
+}
+
 var repeats = 1
 
 // keepLiveDigests: does GC keep the digest-only reference of a descriptor that stays in the
@@ -804,7 +964,7 @@ var repeats = 1
 // probed once and passed to the model and to the reference.
 var keepLiveDigests bool
 
-func probeKeepLiveDigests() bool {
+func probeKeepLiveDigests() (keeps bool, definite bool) {
 	root, err := os.MkdirTemp("", "c09p-")
 	if err != nil {
 		panic(err)
@@ -841,10 +1001,10 @@ func probeKeepLiveDigests() bool {
 	}
 	w := &world{root: root, store: store}
 	if err, hung := w.guarded(func(c context.Context) error { return store.GC(c) }); err != nil || hung {
-		return false
+		return false, !hung // a probe that exceeded the watchdog says nothing
 	}
 	d, err := store.Resolve(ctx, md.Digest.String())
-	return err == nil && d.MediaType == ocispec.MediaTypeImageManifest
+	return err == nil && d.MediaType == ocispec.MediaTypeImageManifest, true
 }
 
 // execOnly runs the history on a fresh store and returns the observable string only.
@@ -882,7 +1042,12 @@ func execOnly(g *dag.Graph, ops []op) (string, bool) {
 			os.MkdirAll(filepath.Dir(p), 0o755)
 			os.WriteFile(p, []byte(fmt.Sprintf("stray %d", o.N)), 0o644)
 			strays[o.N] = true
-		case 'R':
+		case 'R', 'F':
+			if o.K == 'F' {
+				if ferr := stripIndex(root); ferr != nil {
+					panic(ferr)
+				}
+			}
 			ns, nerr := oci.New(root)
 			if nerr != nil {
 				err = nerr
@@ -926,15 +1091,15 @@ func genCase(r *common.Rand) (*dag.Graph, []op) {
 				okg = true // something can be pushed
 			}
 		}
-		for _, n := range g.Nodes {
-			// subjects are manifests (OCI referrers); registry.Referrers is undefined otherwise
-			if n.Subject >= 0 && !g.Nodes[n.Subject].IsManifest() {
-				okg = false
-			}
-		}
+		// subjects that are not manifests (a layer or config named as subject, stored or never
+		// pushed) are generated too: such a "referrer" has no manifest to refer to, so nothing
+		// keeps it alive in GC and nothing cascades to it in Delete
 		if okg {
 			break
 		}
+	}
+	if r.Chance(1, 3) {
+		addAltBlob(r, g)
 	}
 	addReferrers(r, g, r.Intn(5))
 	if r.Chance(1, 4) {
@@ -956,7 +1121,16 @@ func genCase(r *common.Rand) (*dag.Graph, []op) {
 	if r.Chance(1, 4) {
 		common.Shuffle(r, order)
 	}
-	for _, n := range order {
+	// sometimes the store is reopened in the middle of the pushes: blobs pushed before and
+	// not yet referenced by an indexed manifest are then unknown to the new store's graph
+	restartAt := -1
+	if keepLiveDigests && r.Chance(1, 6) {
+		restartAt = r.Intn(len(order) + 1)
+	}
+	for i, n := range order {
+		if i == restartAt {
+			ops = append(ops, op{K: 'R'})
+		}
 		if r.Chance(1, 12) {
 			continue
 		}
@@ -989,6 +1163,9 @@ func genCase(r *common.Rand) (*dag.Graph, []op) {
 	}
 	// phase 2: mixed history
 	steps := 2 + r.Intn(7)
+	if run.Thorough() && r.Chance(1, 4) {
+		steps += r.Intn(16) // long histories
+	}
 	for i := 0; i < steps; i++ {
 		switch x := r.Intn(100); {
 		case x < 30:
@@ -1016,6 +1193,21 @@ func genCase(r *common.Rand) (*dag.Graph, []op) {
 			ops = append(ops, op{K: 'S', N: r.Intn(12)})
 		default:
 			ops = append(ops, op{K: 'A', N: r.Intn(2)})
+		}
+		if keepLiveDigests && r.Chance(1, 12) {
+			// reopen at an arbitrary point (index.json is kept current by AutoSaveIndex)
+			ops = append(ops, op{K: 'R'})
+		}
+		if keepLiveDigests && r.Chance(1, 16) {
+			// a layout whose index names only the tagged manifests, then often a Delete
+			// with AutoGC off: nested manifests that lose their last predecessor must stay listed
+			ops = append(ops, op{K: 'F'})
+			if r.Chance(2, 3) {
+				ops = append(ops, op{K: 'A', N: r.Intn(2)})
+				if len(manifests) > 0 {
+					ops = append(ops, op{K: 'D', N: common.Pick(r, manifests)})
+				}
+			}
 		}
 	}
 	if r.Chance(1, 2) {
@@ -1066,6 +1258,20 @@ func appendManifest(g *dag.Graph, index bool, subject int, cfg int, lists []int,
 	return id
 }
 
+// addAltBlob: a layer addressed by sha512/sha384 and an image manifest using it as its
+// config (content under blobs/sha512, blobs/sha384 must be swept and kept like any other)
+func addAltBlob(r *common.Rand, g *dag.Graph) {
+	id := len(g.Nodes)
+	body := []byte(fmt.Sprintf("alt-blob-%d-%x", id, r.U64()))
+	g.Nodes = append(g.Nodes, &dag.Node{ID: id, Kind: dag.KBlob, Bytes: body, Subject: -1, TwinOf: -1,
+		Desc: ocispec.Descriptor{MediaType: ocispec.MediaTypeImageLayer, Digest: digest.FromBytes(body), Size: int64(len(body))}})
+	altDigest(r, g)
+	appendManifest(g, false, -1, id, nil, "a")
+	if r.Chance(1, 2) {
+		altDigest(r, g)
+	}
+}
+
 // addHeldCluster: a referrer X of some manifest m that an index R lists (R is itself a
 // referrer of m, or of nothing) and that has a referrer of its own: X must wait for R and
 // is never "dangling" while its own referrer exists.
@@ -1087,6 +1293,9 @@ func addHeldCluster(r *common.Rand, g *dag.Graph) {
 	m := common.Pick(r, manifests)
 	c := common.Pick(r, blobs)
 	x := appendManifest(g, false, m, c, nil, "x")
+	if r.Chance(1, 3) {
+		altDigest(r, g)
+	}
 	rs := -1
 	switch r.Intn(3) {
 	case 0:
@@ -1171,6 +1380,9 @@ func addReferrers(r *common.Rand, g *dag.Graph, k int) {
 		nd.Bytes = body
 		nd.Desc = ocispec.Descriptor{MediaType: mt, Digest: digest.FromBytes(body), Size: int64(len(body))}
 		g.Nodes = append(g.Nodes, nd)
+		if r.Chance(1, 4) {
+			altDigest(r, g)
+		}
 	}
 }
 
@@ -1321,15 +1533,42 @@ func exhaustive() {
 	}
 }
 
+// coverageFloors: a run whose streams silently produced (almost) nothing must not pass.
+func coverageFloors(n int) {
+	if n < 500 || hangs > 0 || run.OracleFails > 0 {
+		return
+	}
+	need := map[string]int{"op:delete": n / 4, "op:gc": n / 4, "op:tag": n / 2, "op:push": 2 * n, "op:stray": n / 20, "repetitions": n / 2}
+	if keepLiveDigests {
+		need["op:reopen"] = n / 20
+	}
+	if run.Thorough() {
+		need["exhaustive:histories"] = 10000
+	}
+	var missing []string
+	for k, v := range need {
+		if run.Dist[k] < v {
+			missing = append(missing, fmt.Sprintf("%s=%d<%d", k, run.Dist[k], v))
+		}
+	}
+	if len(missing) > 0 {
+		sort.Strings(missing)
+		fmt.Fprintln(os.Stderr, "C09 harness: coverage floor not reached:", strings.Join(missing, " "))
+		os.Exit(3)
+	}
+}
+
 func main() {
 	run = common.Start("C09")
 	run.Rule = "distinct (graph, history) pairs in which a Delete cascaded beyond its target or a GC removed at least one blob"
-	// (a stalled probe must not flip the answer: two equal answers in a row)
-	for a, b := probeKeepLiveDigests(), probeKeepLiveDigests(); ; a, b = b, probeKeepLiveDigests() {
-		if a == b {
-			keepLiveDigests = a
-			break
-		}
+	// (a stalled probe says nothing: ask again; give up - as a harness failure - after 5 stalls)
+	answered := false
+	for i := 0; i < 5 && !answered; i++ {
+		keepLiveDigests, answered = probeKeepLiveDigests()
+	}
+	if !answered {
+		fmt.Fprintln(os.Stderr, "C09 harness: the start-up probe (GC on a 3-node store) exceeded the watchdog 5 times")
+		os.Exit(4)
 	}
 	run.Extra["gc_keeps_live_digest_refs"] = keepLiveDigests
 	if run.Replay != "" {
@@ -1344,7 +1583,14 @@ func main() {
 			if err := json.Unmarshal([]byte(c["graph"]), &es); err != nil {
 				continue
 			}
-			runCase(dag.Decode(es), parseOps(c["ops"]), 0)
+			rg := dag.Decode(es)
+			if a, ok := c["algs"]; ok {
+				algs := map[string]string{}
+				if json.Unmarshal([]byte(a), &algs) == nil {
+					applyAlgs(rg, algs)
+				}
+			}
+			runCase(rg, parseOps(c["ops"]), 0)
 		}
 		run.Finish()
 		return
@@ -1353,10 +1599,11 @@ func main() {
 	if run.Thorough() {
 		exhaustive()
 	}
-	n := run.Scale(1600, 20000)
+	n := run.Scale(1600, 16000)
 	if os.Getenv("C09_ONLY_EXHAUSTIVE") != "" { // manual testing aid
 		n = 0
 	}
+	defer coverageFloors(n)
 	for i := 0; i < n && hangs < 2; i++ {
 		cs := run.Rand.U64()
 		g, ops := genCase(common.NewRand(cs))
